@@ -152,6 +152,11 @@ pub(crate) fn serialize_text<'a, N: Normalizer>(
                 }
                 result.push('>');
             }
+            // a literal carriage return would be read back as a line feed
+            '\r' => {
+                change = true;
+                result.push_str("&#xD;")
+            }
             _ => result.push(c),
         }
     }
@@ -239,6 +244,20 @@ pub(crate) fn serialize_attribute<'a, N: Normalizer>(
             '"' => {
                 change = true;
                 result.push_str("&quot;")
+            }
+            // literal whitespace other than space would be read back as a
+            // space by attribute-value normalization
+            '\t' => {
+                change = true;
+                result.push_str("&#x9;")
+            }
+            '\n' => {
+                change = true;
+                result.push_str("&#xA;")
+            }
+            '\r' => {
+                change = true;
+                result.push_str("&#xD;")
             }
             _ => result.push(c),
         }
